@@ -448,11 +448,128 @@ def validates_first(index: RepoIndex, f: Func, dp: str) -> Tuple[bool, str]:
     return True, 'validate first'
 
 
+def memo_key_of_decorator(index: RepoIndex, f: Func, d: ast.AST):
+    """(complete, key text, what is ignored) for a memoising decorator written in the
+    repository -- a function that returns a nested wrapper which looks its arguments up in a
+    dictionary of the enclosing scope and otherwise stores the wrapped function's result
+    there.  `complete` means the key determines the call: every positional parameter by
+    value, `*args` as a whole, `**kwargs` through its items (names and values).  None when the
+    decorator is not of that shape."""
+    if not isinstance(d, ast.Name):
+        return None
+    r = index.resolve_name(f.module, d.id)
+    if not isinstance(r, Func) or len(r.node.args.args) != 1:
+        return None
+    wrapped = r.node.args.args[0].arg
+    inner = [n for n in r.node.body if isinstance(n, ast.FunctionDef)]
+    rets = [n for n in r.node.body if isinstance(n, ast.Return)]
+    if len(inner) != 1 or len(rets) != 1 or not isinstance(rets[0].value, ast.Name) or \
+            rets[0].value.id != inner[0].name:
+        return None
+    wr = inner[0]
+    tables = {t.id for s_ in r.node.body if isinstance(s_, (ast.Assign, ast.AnnAssign))
+              for t in ([s_.target] if isinstance(s_, ast.AnnAssign) else s_.targets)
+              if isinstance(t, ast.Name) and s_.value is not None and (
+                  (isinstance(s_.value, ast.Dict) and not s_.value.keys) or
+                  (isinstance(s_.value, ast.Call) and src(s_.value.func) == 'dict'
+                   and not s_.value.args))}
+    subs = [n for n in ast.walk(wr) if isinstance(n, ast.Subscript)
+            and isinstance(n.value, ast.Name) and n.value.id in tables]
+    calls = [n for n in ast.walk(wr) if isinstance(n, ast.Call)
+             and isinstance(n.func, ast.Name) and n.func.id == wrapped]
+    if not subs or len(calls) != 1:
+        return None
+    w = walk_function(wr)
+    keys = {src(w.expand(n.slice)) for n in subs}
+    if len(keys) != 1:
+        return None
+    K = w.expand(subs[0].slice)
+    ignored = []
+    names = [n for n in ast.walk(K) if isinstance(n, ast.Name)]
+    for a in wr.args.posonlyargs + wr.args.args + wr.args.kwonlyargs:
+        if not any(n.id == a.arg for n in names):
+            ignored.append(a.arg)
+    if wr.args.vararg and not any(n.id == wr.args.vararg.arg for n in names):
+        ignored.append('*' + wr.args.vararg.arg)
+    if wr.args.kwarg:
+        kw = wr.args.kwarg.arg
+        by_items = {id(n.func.value) for n in ast.walk(K) if isinstance(n, ast.Call)
+                    and isinstance(n.func, ast.Attribute) and n.func.attr == 'items'
+                    and isinstance(n.func.value, ast.Name) and n.func.value.id == kw}
+        occ = [n for n in names if n.id == kw]
+        if not occ:
+            ignored.append('**' + kw)
+        elif any(id(n) not in by_items for n in occ):
+            ignored.append(f'the values of **{kw} (only its names are in the key)')
+    return (not ignored, src(K), ignored)
+
+
+def validation_before_imports(index: RepoIndex, rep, rule: str) -> None:
+    """a configuration naming `module:Name` components is validated before the factories
+    import that module (every factory_* calls validate first, C17.R5; import_if_custom is
+    called by the factories).  A schema predicate that consults a registry therefore sees the
+    registry without the custom entries and rejects a valid file -- unless the same predicate
+    imports the module first.  Decided on the callables of the schema module."""
+    rel = 'gym_gridverse/envs/yaml/schemas.py'
+    mod = index.module(rel)
+    scopes = [n for n in ast.walk(mod.tree) if isinstance(n, (ast.FunctionDef, ast.Lambda))]
+    n_ok = 0
+    for sc in scopes:
+        reads = [n for n in ast.walk(sc) if isinstance(n, ast.Name) and
+                 isinstance(n.ctx, ast.Load) and n.id.endswith('_registry')]
+        reads += [n for n in ast.walk(sc) if isinstance(n, ast.Attribute) and
+                  n.attr.endswith('_registry')]
+        if not reads:
+            n_ok += 1
+            rep.holds(rule, f'{rel}:{getattr(sc, "name", "<lambda>")}:{sc.lineno}',
+                      'reads no registry')
+            continue
+        imports = [n for n in ast.walk(sc) if isinstance(n, ast.Call)
+                   and src(n.func).split('.')[-1] == 'import_if_custom']
+        first_read = min(n.lineno for n in reads)
+        name = getattr(sc, 'name', '<lambda>')
+        rep.check(bool(imports) and min(n.lineno for n in imports) <= first_read, rule, rel,
+                  name, sc.lineno, src(reads[0]),
+                  f'schema predicate `{name}` consults `{src(reads[0])}` while the '
+                  f'configuration is being validated: custom `module:Name` entries are '
+                  f'registered only when the factories import the module afterwards, so a valid '
+                  f'file naming one is rejected', f'schema predicate {name}')
+    # module-level expressions (the tables themselves) evaluated at import time
+    top = [n for st in mod.tree.body if not isinstance(st, (ast.FunctionDef, ast.ClassDef))
+           for n in ast.walk(st) if isinstance(n, ast.Name) and n.id.endswith('_registry')
+           and not any(n in ast.walk(sc) for sc in scopes)]
+    rep.check(not top, rule, rel, '<module>', top[0].lineno if top else 1,
+              src(top[0]) if top else 'schemas', 'a schema table is built from a registry at '
+              'import time: types registered later (custom modules) are not part of it',
+              'schema tables are registry-independent')
+    # the premise: validation comes first in the entry point
+    fe = index.func('gym_gridverse/envs/yaml/factory.py', 'factory_env_from_data')
+    w = walk_function(fe.node)
+    calls = [e for e in w.events if e.kind == 'call']
+    if not calls or not src(calls[0].node.func).endswith('.validate'):
+        raise AnalysisError('factory_env_from_data does not validate first: the premise of the '
+                            'schema-predicate rule (imports happen after validation) is gone')
+
+
 def factory_rules(index: RepoIndex, rep, rule: str) -> None:
     """the six `factory(name, **kwargs)` functions are siblings with the documented pipeline
     (also registered as C12.R4: a reward / termination component obtained by name receives
     exactly the parameters it was configured with)"""
     facts = {r: index.func(ROLE_FILE[r], 'factory') for r in N_PROTOCOL}
+    # a factory handed out through a memo must be keyed by everything it was configured with
+    for r, f in sorted(facts.items()):
+        for d in f.node.decorator_list:
+            dn = src(d.func if isinstance(d, ast.Call) else d)
+            if dn in ('functools.lru_cache', 'lru_cache', 'functools.cache', 'cache'):
+                continue        # keyed by all positional and keyword arguments, by value
+            mk = memo_key_of_decorator(index, f, d)
+            if mk is None:
+                raise AnalysisError(f'{ROLE_FILE[r]}: factory is wrapped by `{dn}`, a '
+                                    f'decorator outside the grammar of the factory rules')
+            rep.check(mk[0], rule, ROLE_FILE[r], 'factory', f.node.lineno, f'@{dn}: key {mk[1]}',
+                      f'the {r} factory is memoised on `{mk[1]}`, which leaves out '
+                      f'{"; ".join(mk[2])}: a second request with other parameter values is '
+                      f'answered with the component built for the first', f'{r} factory memo key')
     norm = {}
     for r, f in facts.items():
         norm[r] = factory_denotation(f, {f'{r}_function_registry': 'REGISTRY'}, index)
@@ -554,6 +671,9 @@ def run(index: RepoIndex, rep) -> None:
     rep.rule('C17.R6', 'assembly: chain / reduce_sum, spaces sized from a sample, components '
              'in GridWorld\'s parameter order', floor=8)
     rep.rule('C17.R7', 'declared types and colours cover what can be placed (C01.R6)', floor=21)
+    rep.rule('C17.R8', 'schema predicates do not consult registries (validation precedes the '
+             'import of custom modules)', floor=8)
+    validation_before_imports(index, rep, 'C17.R8')
     cfg = Configs(index, rep)
     om = ObjectModel(index)
 
